@@ -71,127 +71,132 @@ pub trait Proto {
     fn last(&mut self) -> Option<Y>;
     fn count(&mut self) -> usize;
 }
-pub struct Fwd<I>(pub I);
+/// (the iterator sits in an Option so that the consuming methods `last` / `count` can be called on the
+/// iterator itself - through `by_ref()` an override of them would never run)
+pub struct Fwd<I>(pub Option<I>);
 impl<I: Iterator> Proto for Fwd<I>
 where
     I::Item: IntoY,
 {
     fn next(&mut self) -> Option<Y> {
-        self.0.next().map(|x| x.y())
+        self.0.as_mut().and_then(|i| i.next()).map(|x| x.y())
     }
     fn next_back(&mut self) -> Option<Option<Y>> {
+        None
+    }
+    fn nth_back(&mut self, _k: usize) -> Option<Option<Y>> {
         None
     }
     fn len(&self) -> Option<usize> {
         None
     }
     fn size_hint(&self) -> (usize, Option<usize>) {
-        self.0.size_hint()
+        self.0.as_ref().map(|i| i.size_hint()).unwrap_or((0, Some(0)))
     }
     fn nth(&mut self, k: usize) -> Option<Y> {
-        self.0.nth(k).map(|x| x.y())
+        self.0.as_mut().and_then(|i| i.nth(k)).map(|x| x.y())
     }
     fn last(&mut self) -> Option<Y> {
-        self.0.by_ref().last().map(|x| x.y())
+        self.0.take().and_then(|i| i.last()).map(|x| x.y())
     }
     fn count(&mut self) -> usize {
-        self.0.by_ref().count()
-    }
-    fn nth_back(&mut self, _k: usize) -> Option<Option<Y>> {
-        None
+        self.0.take().map(|i| i.count()).unwrap_or(0)
     }
 }
-/// forward + exact size
-pub struct Fx<I>(pub I);
+/// (the iterator sits in an Option so that the consuming methods `last` / `count` can be called on the
+/// iterator itself - through `by_ref()` an override of them would never run)
+pub struct Fx<I>(pub Option<I>);
 impl<I: Iterator + ExactSizeIterator> Proto for Fx<I>
 where
     I::Item: IntoY,
 {
     fn next(&mut self) -> Option<Y> {
-        self.0.next().map(|x| x.y())
+        self.0.as_mut().and_then(|i| i.next()).map(|x| x.y())
     }
     fn next_back(&mut self) -> Option<Option<Y>> {
         None
     }
-    fn len(&self) -> Option<usize> {
-        Some(self.0.len())
-    }
-    fn size_hint(&self) -> (usize, Option<usize>) {
-        self.0.size_hint()
-    }
-    fn nth(&mut self, k: usize) -> Option<Y> {
-        self.0.nth(k).map(|x| x.y())
-    }
-    fn last(&mut self) -> Option<Y> {
-        self.0.by_ref().last().map(|x| x.y())
-    }
-    fn count(&mut self) -> usize {
-        self.0.by_ref().count()
-    }
     fn nth_back(&mut self, _k: usize) -> Option<Option<Y>> {
         None
     }
+    fn len(&self) -> Option<usize> {
+        Some(self.0.as_ref().map(|i| i.len()).unwrap_or(0))
+    }
+    fn size_hint(&self) -> (usize, Option<usize>) {
+        self.0.as_ref().map(|i| i.size_hint()).unwrap_or((0, Some(0)))
+    }
+    fn nth(&mut self, k: usize) -> Option<Y> {
+        self.0.as_mut().and_then(|i| i.nth(k)).map(|x| x.y())
+    }
+    fn last(&mut self) -> Option<Y> {
+        self.0.take().and_then(|i| i.last()).map(|x| x.y())
+    }
+    fn count(&mut self) -> usize {
+        self.0.take().map(|i| i.count()).unwrap_or(0)
+    }
 }
-/// double ended + exact size
-pub struct Dx<I>(pub I);
+/// (the iterator sits in an Option so that the consuming methods `last` / `count` can be called on the
+/// iterator itself - through `by_ref()` an override of them would never run)
+pub struct Dx<I>(pub Option<I>);
 impl<I: DoubleEndedIterator + ExactSizeIterator> Proto for Dx<I>
 where
     I::Item: IntoY,
 {
     fn next(&mut self) -> Option<Y> {
-        self.0.next().map(|x| x.y())
+        self.0.as_mut().and_then(|i| i.next()).map(|x| x.y())
     }
     fn next_back(&mut self) -> Option<Option<Y>> {
-        Some(self.0.next_back().map(|x| x.y()))
-    }
-    fn len(&self) -> Option<usize> {
-        Some(self.0.len())
-    }
-    fn size_hint(&self) -> (usize, Option<usize>) {
-        self.0.size_hint()
-    }
-    fn nth(&mut self, k: usize) -> Option<Y> {
-        self.0.nth(k).map(|x| x.y())
-    }
-    fn last(&mut self) -> Option<Y> {
-        self.0.by_ref().last().map(|x| x.y())
-    }
-    fn count(&mut self) -> usize {
-        self.0.by_ref().count()
+        Some(self.0.as_mut().and_then(|i| i.next_back()).map(|x| x.y()))
     }
     fn nth_back(&mut self, k: usize) -> Option<Option<Y>> {
-        Some(self.0.nth_back(k).map(|x| x.y()))
+        Some(self.0.as_mut().and_then(|i| i.nth_back(k)).map(|x| x.y()))
+    }
+    fn len(&self) -> Option<usize> {
+        Some(self.0.as_ref().map(|i| i.len()).unwrap_or(0))
+    }
+    fn size_hint(&self) -> (usize, Option<usize>) {
+        self.0.as_ref().map(|i| i.size_hint()).unwrap_or((0, Some(0)))
+    }
+    fn nth(&mut self, k: usize) -> Option<Y> {
+        self.0.as_mut().and_then(|i| i.nth(k)).map(|x| x.y())
+    }
+    fn last(&mut self) -> Option<Y> {
+        self.0.take().and_then(|i| i.last()).map(|x| x.y())
+    }
+    fn count(&mut self) -> usize {
+        self.0.take().map(|i| i.count()).unwrap_or(0)
     }
 }
-/// double ended without exact size (some adaptors)
-pub struct Dd<I>(pub I);
+/// (the iterator sits in an Option so that the consuming methods `last` / `count` can be called on the
+/// iterator itself - through `by_ref()` an override of them would never run)
+pub struct Dd<I>(pub Option<I>);
 impl<I: DoubleEndedIterator> Proto for Dd<I>
 where
     I::Item: IntoY,
 {
     fn next(&mut self) -> Option<Y> {
-        self.0.next().map(|x| x.y())
+        self.0.as_mut().and_then(|i| i.next()).map(|x| x.y())
     }
     fn next_back(&mut self) -> Option<Option<Y>> {
-        Some(self.0.next_back().map(|x| x.y()))
+        Some(self.0.as_mut().and_then(|i| i.next_back()).map(|x| x.y()))
+    }
+    fn nth_back(&mut self, k: usize) -> Option<Option<Y>> {
+        Some(self.0.as_mut().and_then(|i| i.nth_back(k)).map(|x| x.y()))
     }
     fn len(&self) -> Option<usize> {
         None
     }
     fn size_hint(&self) -> (usize, Option<usize>) {
-        self.0.size_hint()
+        self.0.as_ref().map(|i| i.size_hint()).unwrap_or((0, Some(0)))
     }
     fn nth(&mut self, k: usize) -> Option<Y> {
-        self.0.nth(k).map(|x| x.y())
+        self.0.as_mut().and_then(|i| i.nth(k)).map(|x| x.y())
     }
     fn last(&mut self) -> Option<Y> {
-        self.0.by_ref().last().map(|x| x.y())
+        self.0.take().and_then(|i| i.last()).map(|x| x.y())
     }
     fn count(&mut self) -> usize {
-        self.0.by_ref().count()
-    }
-    fn nth_back(&mut self, k: usize) -> Option<Option<Y>> {
-        Some(self.0.nth_back(k).map(|x| x.y()))
+        self.0.take().map(|i| i.count()).unwrap_or(0)
     }
 }
 
@@ -202,19 +207,19 @@ where
     I::Item: IntoY + 'a,
 {
     match adaptor {
-        "" | "none" => Box::new(Dx(it)),
-        "rev" => Box::new(Dx(it.rev())),
-        "take" => Box::new(Dx(it.take(k))),
-        "skip" => Box::new(Dx(it.skip(k))),
-        "enumerate" => Box::new(Dx(it.enumerate().map(|(_, x)| x))),
-        "zip" => Box::new(Dx(it.zip(0..1_000_000usize).map(|(x, _)| x))),
-        "peekable" => Box::new(Dx(it.peekable())),
-        "fuse" => Box::new(Dx(it.fuse())),
-        "step_by" => Box::new(Dx(it.step_by(k.max(1)))),
-        "chain" => Box::new(Dd(it.chain(std::iter::empty()))),
-        "rev_take" => Box::new(Dx(it.rev().take(k))),
-        "take_rev" => Box::new(Dx(it.take(k).rev())),
-        "skip_rev" => Box::new(Dx(it.skip(k).rev())),
+        "" | "none" => Box::new(Dx(Some(it))),
+        "rev" => Box::new(Dx(Some(it.rev()))),
+        "take" => Box::new(Dx(Some(it.take(k)))),
+        "skip" => Box::new(Dx(Some(it.skip(k)))),
+        "enumerate" => Box::new(Dx(Some(it.enumerate().map(|(_, x)| x)))),
+        "zip" => Box::new(Dx(Some(it.zip(0..1_000_000usize).map(|(x, _)| x)))),
+        "peekable" => Box::new(Dx(Some(it.peekable()))),
+        "fuse" => Box::new(Dx(Some(it.fuse()))),
+        "step_by" => Box::new(Dx(Some(it.step_by(k.max(1))))),
+        "chain" => Box::new(Dd(Some(it.chain(std::iter::empty())))),
+        "rev_take" => Box::new(Dx(Some(it.rev().take(k)))),
+        "take_rev" => Box::new(Dx(Some(it.take(k).rev()))),
+        "skip_rev" => Box::new(Dx(Some(it.skip(k).rev()))),
         _ => panic!("harness: unknown adaptor {}", adaptor),
     }
 }
@@ -225,15 +230,15 @@ where
     I::Item: IntoY + 'a,
 {
     match adaptor {
-        "" | "none" => Box::new(Fwd(it)),
-        "take" => Box::new(Fwd(it.take(k))),
-        "skip" => Box::new(Fwd(it.skip(k))),
-        "enumerate" => Box::new(Fwd(it.enumerate().map(|(_, x)| x))),
-        "zip" => Box::new(Fwd(it.zip(0..1_000_000usize).map(|(x, _)| x))),
-        "peekable" => Box::new(Fwd(it.peekable())),
-        "fuse" => Box::new(Fwd(it.fuse())),
-        "step_by" => Box::new(Fwd(it.step_by(k.max(1)))),
-        "chain" => Box::new(Fwd(it.chain(std::iter::empty()))),
+        "" | "none" => Box::new(Fwd(Some(it))),
+        "take" => Box::new(Fwd(Some(it.take(k)))),
+        "skip" => Box::new(Fwd(Some(it.skip(k)))),
+        "enumerate" => Box::new(Fwd(Some(it.enumerate().map(|(_, x)| x)))),
+        "zip" => Box::new(Fwd(Some(it.zip(0..1_000_000usize).map(|(x, _)| x)))),
+        "peekable" => Box::new(Fwd(Some(it.peekable()))),
+        "fuse" => Box::new(Fwd(Some(it.fuse()))),
+        "step_by" => Box::new(Fwd(Some(it.step_by(k.max(1))))),
+        "chain" => Box::new(Fwd(Some(it.chain(std::iter::empty())))),
         _ => panic!("harness: unknown adaptor {}", adaptor),
     }
 }
